@@ -15,6 +15,7 @@ def jobs(tier):
         add('free%d' % n, [-1, 0, n], 'every valid JSON text of length %d x all 14 paths' % n, nproc=4 if n < 5 else 16)
     for arr in (0, 1):
         for esc in ((0, 1) if not arr else (0,)):
+            if esc: add('tmpl.a0.e1.pad40', [-1, 2, 0, 1, 1, 40], '{"\\u0061":V,"b":W,"a":X,"zz":"<40 bytes>"} with 1-byte symbolic values x all 14 paths (escaped key followed by more than 32 bytes of text)', nproc=8)
             add('tmpl.a%d.e%d' % (arr, esc), [-1, 2, arr, esc, 1 if q else 0], ('[V,W,X]' if arr else '{"a":V,"b":W,"a":X}' + (' with key a spelled \\u0061' if esc else '')) + ' with %s symbolic values x all 14 paths' % ('1-byte' if q else '2-byte'), nproc=8)
     fills = [31, 64] if q else list(range(28, 37)) + list(range(60, 69))
     KN = {0: 'spaces', 1: 'string content with brackets', 2: 'string content ending in an escaped quote (backslash on the last byte of a 16/32/64-byte block)'}
